@@ -6,9 +6,10 @@ from kani_runner import KaniSession
 from kcheck import MODULES
 import main as M
 args = sys.argv[1:]
-jobs = None; timeout = 300
-while args and args[0] in ("-j", "-t"):
+jobs = None; timeout = 300; mem = 12
+while args and args[0] in ("-j", "-t", "-m"):
     if args[0] == "-j": jobs = int(args[1])
+    elif args[0] == "-m": mem = int(args[1])
     else: timeout = int(args[1])
     args = args[2:]
 hm = M.scan_harnesses()
@@ -16,7 +17,7 @@ sel = [(n, m) for n, m in sorted(hm.items()) if any(re.search(a, n) for a in arg
 s = KaniSession("dev")
 full = {MODULES[m][0] + "::" + n: n for n, m in sel}
 t0 = time.time()
-r = s.run(list(full), timeout_s=timeout, jobs=jobs)
+r = s.run(list(full), timeout_s=timeout, jobs=jobs, mem_gb=mem)
 print("wall %.1fs rc=%s build_error=%s log=%s" % (r["wall_s"], r["rc"], r["build_error"], r["log"]))
 for h, res in r["results"].items():
     st = res.get("stats") or {}
